@@ -30,6 +30,7 @@ from types import CodeType
 from typing import Iterable, Optional, Union
 
 from xdis.cross_dis import (
+    _get_jump_cache_size,
     format_code_info,
     get_code_object,
     instruction_size,
@@ -341,20 +342,8 @@ def get_logical_instruction_at_offset(
                 signed_arg = -arg if "JUMP_BACKWARD" in opname else arg
                 argval = i + get_jump_val(signed_arg, opc.python_version)
 
-                # check cache instructions for python 3.13
-                if opc.version_tuple >= (3, 13):
-                    if opc.opname[op] in [
-                        "POP_JUMP_IF_TRUE",
-                        "POP_JUMP_IF_FALSE",
-                        "POP_JUMP_IF_NONE",
-                        "POP_JUMP_IF_NOT_NONE",
-                        "JUMP_BACKWARD",
-                    ]:
-                        argval += 2
-
-                # FOR_ITER has a cache instruction in 3.12
-                if opc.version_tuple >= (3, 12) and opname == "FOR_ITER":
-                    argval += 2
+                # from 3.12 a jump is relative to the end of its inline cache entries
+                argval += 2 * _get_jump_cache_size(opname, opc.version_tuple)
                 argrepr = "to " + repr(argval)
             elif op in opc.JABS_OPS:
                 argval = get_jump_val(arg, opc.python_version)
